@@ -565,9 +565,40 @@ class MethodMixin:
             raise Unsupported(f'Pattern.{name}')
         subj = self.unwrap(args[0], node)
         s = self.zs.lift(subj, STR)
+        offset = 0
+        if len(args) > 1:
+            # match(string, pos): the same as matching string[pos:] for a pattern without anchors / look-behind / \b
+            if len(args) > 2 or name == 'search':
+                raise Unsupported(f'Pattern.{name} with endpos / search with pos')
+            tree_ = rx.parse(pat)
+            if any(str(op_) in ('AT', 'ASSERT', 'ASSERT_NOT') for op_, _av in self._re_walk(tree_)):
+                raise Unsupported('match(string, pos) of a pattern with anchors or look-around')
+            offset = args[1]
+            off_t = self.zs.lift(offset, INT)
+            if not self.cur_pure():
+                self.oblige('safety:match-pos', z3.And(off_t >= 0, off_t <= z3.Length(s)), node, 'pos within the string')
+                self.path.assume(z3.And(off_t >= 0, off_t <= z3.Length(s)))
+            s = simp(z3.SubString(s, off_t, z3.Length(s) - off_t))
+            self.assumptions.add('Pattern.match(string, pos) is modelled as a match on string[pos:] (patterns without anchors / look-around)')
         i, f = self.re_syms(pat, name)
         matched = f(s)
         notes = set()
+        if not self.cur_pure():
+            # the matched text: a piece of the subject (a prefix for match, everything for fullmatch), in the language of the
+            # pattern when that is translatable
+            g0 = self.re_group_syms(pat, name, 0)[0](s)
+            st = self.ufun(f'{i}_{name}_start', STR, INT)(s)
+            facts = [st >= 0, st + z3.Length(g0) <= z3.Length(s), g0 == z3.SubString(s, st, z3.Length(g0))]
+            if name in ('match', 'fullmatch'):
+                facts.append(st == 0)
+            if name == 'fullmatch':
+                facts.append(g0 == s)
+            try:
+                wl = rx.to_re(rx.parse(pat), pat.flags, notes, drop_assertions=True)
+                facts.append(z3.InRe(g0, wl))
+            except rx.Untranslatable:
+                pass
+            self.path.assume(z3.Implies(matched, z3.And(*facts)))
         for k, (tree, always) in rx.groups(pat).items():
             g, n = self.re_group_syms(pat, name, k)
             if always:
@@ -578,7 +609,21 @@ class MethodMixin:
         self.assumptions.update(notes)
         if not self.cur_pure():
             self.assume_alt_facts(pat, name, s, matched)
-        return VOpt(z3.Not(matched), VMatch(pat, s, name))
+        return VOpt(z3.Not(matched), VMatch(pat, s, name, offset))
+
+    def _re_walk(self, sub):
+        for op_, av in sub:
+            yield op_, av
+            n_ = str(op_)
+            if n_ == 'SUBPATTERN':
+                yield from self._re_walk(av[3])
+            elif n_ == 'BRANCH':
+                for x in av[1]:
+                    yield from self._re_walk(x)
+            elif n_ in ('MAX_REPEAT', 'MIN_REPEAT', 'POSSESSIVE_REPEAT'):
+                yield from self._re_walk(av[2])
+            elif n_ in ('ASSERT', 'ASSERT_NOT'):
+                yield from self._re_walk(av[1])
 
     def assume_match_facts(self, m):
         """language facts of the groups of a match object received as a parameter"""
@@ -644,7 +689,9 @@ class MethodMixin:
             g0 = self.re_group_syms(m.pattern, m.method, 0)[0](m.subject)
             if not self.cur_pure():
                 self.path.assume(st >= 0)
-            return st if name == 'start' else st + z3.Length(g0)
+            off_ = getattr(m, 'offset', 0)
+            base_ = st if name == 'start' else st + z3.Length(g0)
+            return base_ if (isinstance(off_, int) and off_ == 0) else base_ + off_
         if name == 'groupdict':
             d = {}
             for gname, k in m.pattern.groupindex.items():
@@ -857,6 +904,23 @@ class MethodMixin:
             return self.ufun('py_replace', STR, STR, STR, STR)(s, lift(args[0]), lift(args[1]))
         if name == 'find' and len(args) == 1:
             return z3.IndexOf(s, lift(args[0]), 0)
+        if name == 'find' and len(args) == 2:
+            st_ = self.zs.lift(args[1], INT)
+            if not self.cur_pure():
+                self.oblige('safety:find-start', st_ >= 0, node, 'str.find with a non-negative start (a negative start counts from the end: not modelled)')
+                self.path.assume(st_ >= 0)
+            return z3.IndexOf(s, lift(args[0]), st_)
+        if name in ('rfind', 'count') and len(args) == 1:
+            # abstract, with the range facts the callers rely on: rfind in [-1, len-len(sub)], -1 iff absent; count >= 0, 0 iff absent
+            sub_ = lift(args[0])
+            r_ = self.ufun(f'py_{name}', STR, STR, INT)(s, sub_)
+            if not self.cur_pure():
+                if name == 'rfind':
+                    self.path.assume(z3.And(r_ >= -1, r_ <= z3.Length(s) - z3.Length(sub_), (r_ == -1) == z3.Not(z3.Contains(s, sub_)),
+                                            z3.Implies(r_ >= 0, z3.SubString(s, r_, z3.Length(sub_)) == sub_)))
+                else:
+                    self.path.assume(z3.And(r_ >= 0, (r_ == 0) == z3.Not(z3.Contains(s, sub_))))
+            return r_
         if name == 'isdigit':
             self.assumptions.add('str.isdigit modelled as ASCII [0-9]+')
             return z3.InRe(s, DIGITS)
@@ -865,7 +929,19 @@ class MethodMixin:
             fn = self.ufun(f'py_{name}_{len(args)}', *([STR] * (1 + len(args))), seqsort)
             if any(not isinstance(a, str) and not (z3.is_expr(a) and a.sort() == STR) for a in args):
                 raise Unsupported(f'str.{name} with maxsplit')
-            return VBox('list', fn(s, *[lift(a) for a in args]))
+            res_ = fn(s, *[lift(a) for a in args])
+            if name == 'split' and len(args) == 1 and isinstance(args[0], str) and args[0] and not self.cur_pure():
+                # facts of str.split(sep) the callers rely on: at least one piece, count(sep)+1 pieces, the last piece is the text
+                # after the last separator
+                sep_ = lift(args[0])
+                cnt_ = self.ufun('py_count', STR, STR, INT)(s, sep_)
+                rf_ = self.ufun('py_rfind', STR, STR, INT)(s, sep_)
+                last_ = res_[z3.Length(res_) - 1]
+                self.path.assume(z3.And(z3.Length(res_) == cnt_ + 1, cnt_ >= 0, (cnt_ == 0) == z3.Not(z3.Contains(s, sep_)),
+                                        rf_ >= -1, rf_ <= z3.Length(s) - z3.Length(sep_), (rf_ == -1) == (cnt_ == 0),
+                                        last_ == z3.If(rf_ < 0, s, z3.SubString(s, rf_ + z3.Length(sep_), z3.Length(s) - rf_ - z3.Length(sep_)))))
+                self.assumptions.add('str.split(sep): count(sep)+1 pieces, the last one is the text after the last separator (stdlib fact, assumed)')
+            return VBox('list', res_)
         if name == 'join':
             it = self.unwrap(args[0], node)
             if isinstance(it, PyList):
